@@ -856,10 +856,69 @@ func autoStd(c *ssa.CallCommon) (stdEffect, bool) {
 	return e, true
 }
 
+// selfContained: standard types whose methods touch nothing but the receiver, what the receiver was
+// built around (bufio/tabwriter wrappers: kept as the receiver's inner state) and their arguments.
+var selfContained = map[string]bool{
+	"bytes.Reader": true, "bytes.Buffer": true, "strings.Reader": true, "strings.Builder": true,
+	"bufio.Reader": true, "bufio.Writer": true, "bufio.Scanner": true, "text/tabwriter.Writer": true,
+}
+
+// autoStdMethod derives the effect of a method of a self-contained standard type from its
+// signature: it may write the whole state of the receiver; a []byte parameter of a Read* method is
+// filled; interface and function parameters may be called; a pointer-like result may point into
+// the receiver.
+func autoStdMethod(c *ssa.CallCommon) (stdEffect, bool) {
+	callee := c.StaticCallee()
+	if callee == nil || callee.Signature.Recv() == nil {
+		return stdEffect{}, false
+	}
+	rt := callee.Signature.Recv().Type()
+	if p, ok := rt.Underlying().(*types.Pointer); ok {
+		rt = p.Elem()
+	}
+	n, ok := rt.(*types.Named)
+	if !ok || n.Obj().Pkg() == nil || !selfContained[n.Obj().Pkg().Path()+"."+n.Obj().Name()] {
+		return stdEffect{}, false
+	}
+	e := stdEffect{writeDeep: []int{0}}
+	ps := callee.Signature.Params()
+	for i := 0; i < ps.Len(); i++ {
+		t := ps.At(i).Type()
+		switch u := t.Underlying().(type) {
+		case *types.Signature, *types.Interface:
+			e.callsArg = append(e.callsArg, i+1)
+		case *types.Slice:
+			if strings.HasPrefix(callee.Name(), "Read") {
+				e.decode = append(e.decode, i+1)
+			}
+			_ = u
+		case *types.Pointer:
+			return stdEffect{}, false
+		}
+	}
+	rs := callee.Signature.Results()
+	for i := 0; i < rs.Len(); i++ {
+		if pointerLike(rs.At(i).Type()) && rs.At(i).Type().String() != "error" {
+			if rs.Len() > 1 {
+				if b, isB := rs.At(i).Type().Underlying().(*types.Basic); !(isB && b.Kind() == types.String) {
+					if _, isSl := rs.At(i).Type().Underlying().(*types.Slice); !isSl {
+						return stdEffect{}, false
+					}
+				}
+			}
+			e.retArg = []int{0}
+		}
+	}
+	return e, true
+}
+
 func (f *fa) stdCall(in ssa.Instruction, v ssa.Value, name string, c *ssa.CallCommon, args []locset) {
 	e, ok := stdTable[name]
 	if !ok {
 		e, ok = autoStd(c)
+	}
+	if !ok {
+		e, ok = autoStdMethod(c)
 	}
 	if !ok {
 		f.unknown("external callee " + name)
